@@ -378,7 +378,68 @@ type guardedAccess struct {
 // FieldAccesses finds all loads/stores of field `field` of struct type
 // owner (module-wide, production code). A FieldAddr whose address escapes
 // into a call counts as a write.
+// guardedFieldTypes: the declared type of each guarded field, as confirmed by reading the code.
+// When an (unexported) field is renamed, the field is still found as the only field of its owner
+// with this type; a rename is not a change of locking discipline.
+var guardedFieldTypes = map[string]string{
+	"balloon.Balloon.version":                "uint64",
+	"balloon.Balloon.historyTree":            "*history.HistoryTree",
+	"balloon.Balloon.hyperTree":              "*hyper.HyperTree",
+	"balloon/hyper.HyperTree.cache":          "cache.ModifiableCache",
+	"balloon/hyper.HyperTree.hasher":         "hashing.Hasher",
+	"balloon/hyper.HyperTree.defaultHashes":  "[]hashing.Digest",
+	"balloon/hyper.HyperTree.store":          "storage.Store",
+	"balloon/hyper.HyperTree.batchLoader":    "hyper.batchLoader",
+	"balloon/history.HistoryTree.hasher":     "hashing.Hasher",
+	"balloon/history.HistoryTree.writeCache": "cache.ModifiableCache",
+	"balloon/hyper.BatchCache.buf":           "[]byte",
+	"gossip.Topology.m":                      "map[string]*gossip.PeerList",
+	"client.topology.endpoints":              "[]*client.endpoint",
+	"client.topology.primary":                "*client.endpoint",
+	"client.topology.cIndex":                 "int",
+	"client.endpoint.dead":                   "bool",
+	"client.endpoint.failures":               "int",
+	"client.endpoint.deadSince":              "*time.Time",
+	"client.endpoint.url":                    "string",
+	"client.endpoint.nodeType":               "client.nodeType",
+}
+
+// resolveField: the current name of a guarded field (itself, or the unique field of the recorded type).
+func (p *Program) resolveField(ownerPkg, ownerType, field string) string {
+	named := p.NamedType(ownerPkg, ownerType)
+	if named == nil {
+		return field
+	}
+	st, ok := named.Underlying().(*types.Struct)
+	if !ok {
+		return field
+	}
+	for i := 0; i < st.NumFields(); i++ {
+		if st.Field(i).Name() == field {
+			return field
+		}
+	}
+	want, ok := guardedFieldTypes[ownerPkg+"."+ownerType+"."+field]
+	if !ok {
+		return field
+	}
+	found := ""
+	for i := 0; i < st.NumFields(); i++ {
+		if typeStr(st.Field(i).Type()) == want {
+			if found != "" {
+				return field // ambiguous
+			}
+			found = st.Field(i).Name()
+		}
+	}
+	if found != "" {
+		return found
+	}
+	return field
+}
+
 func (p *Program) FieldAccesses(ownerPkg, ownerType, field string) []guardedAccess {
+	field = p.resolveField(ownerPkg, ownerType, field)
 	var out []guardedAccess
 	for _, fn := range p.ModFuncs {
 		if !p.Production(fn) {
